@@ -11,11 +11,11 @@ ASSUME_GENERIC = [
 ]
 
 def c01(tier, dev):
-    return run_cs_property("C01", tier, [Campaign("C01", "plain"), Campaign("C01", "plain-noslack", cases=(100000 if tier == "quick" else 1000000))] + foreign_campaigns("C01", tier),
+    return run_cs_property("C01", tier, [Campaign("C01", "plain"), Campaign("C01", "plain-noslack", cases=(100000 if tier == "quick" else 1000000))] + foreign_campaigns("C01", tier) + fuzz_campaigns("C01", tier, FUZZ_MODS["C01"]),
                            assumptions=ASSUME_GENERIC, dev=dev)
 
 def c02(tier, dev):
-    return run_cs_property("C02", tier, [Campaign("C02", "plain")] + foreign_campaigns("C02", tier), assumptions=ASSUME_GENERIC, dev=dev)
+    return run_cs_property("C02", tier, [Campaign("C02", "plain")] + foreign_campaigns("C02", tier) + fuzz_campaigns("C02", tier, FUZZ_MODS["C02"]), assumptions=ASSUME_GENERIC, dev=dev)
 
 # rows of other families are served by the dedicated modules of C14/C15 (tokenizer, conversions) and by the FMT
 # harness: their violations of *this* property's statement are selected by key and re-labelled
@@ -37,12 +37,26 @@ def foreign_campaigns(prop, tier):
             out.append(Campaign(mod, "plain-noslack", cases=(400000 if tier == "quick" else 4000000), keymap=(rx, prop)))
     return out
 
+def fuzz_campaigns(prop, tier, mods):
+    """coverage-guided phase: libFuzzer mutates the choice bytes of the same decoders, against the ASan build of the library"""
+    n = 400000 if tier == "quick" else 8000000
+    out = []
+    for mod in mods:
+        km = None if mod == prop else (r"^%s:" % prop, prop)
+        out.append(Campaign(mod, "fuzz", extra=["--fuzz-runs", str(n)], keymap=km))
+    return out
+
+
+FUZZ_MODS = {"C01": ["C01", "C01X"], "C02": ["C02", "C02X"], "C07": ["C07"], "C09": ["C09"], "C11": ["C11"], "C14": ["C14"], "C15": ["C15"], "C16": ["C16"]}
+
+
 def two_builds(prop):
     def f(tier, dev):
         n2 = 500000 if tier == "quick" else 5000000
         camps = [Campaign(prop, "plain"), Campaign(prop, "plain-noslack", cases=n2)]
         if prop in FOREIGN:
             camps += foreign_campaigns(prop, tier)
+        camps += fuzz_campaigns(prop, tier, FUZZ_MODS.get(prop, []))
         return run_cs_property(prop, tier, camps, assumptions=ASSUME_GENERIC, dev=dev)
     return f
 
@@ -50,14 +64,14 @@ PROPS = {"C01": c01, "C02": c02, "C03": two_builds("C03"), "C04": two_builds("C0
          "C06": two_builds("C06"),
          "C07": two_builds("C07"),
          "C10": lambda tier, dev: run_cs_property("C10", tier, [Campaign("C10", "plain")], assumptions=ASSUME_GENERIC, dev=dev),
-         "C09": lambda tier, dev: run_cs_property("C09", tier, [Campaign("C09", "plain")], assumptions=ASSUME_GENERIC[:2] + ["variadic calls are made through libffi with arguments matching every directive; stdout/stdin/FILE sinks are memory streams"], dev=dev),
-         "C11": lambda tier, dev: run_cs_property("C11", tier, [Campaign("C11", "plain")], assumptions=ASSUME_GENERIC[:2] + ["glibc snprintf is the reference for the C standard's printf; arguments are passed identically to both through libffi"], dev=dev),
+         "C09": lambda tier, dev: run_cs_property("C09", tier, [Campaign("C09", "plain")] + fuzz_campaigns("C09", tier, ["C09"]), assumptions=ASSUME_GENERIC[:2] + ["variadic calls are made through libffi with arguments matching every directive; stdout/stdin/FILE sinks are memory streams"], dev=dev),
+         "C11": lambda tier, dev: run_cs_property("C11", tier, [Campaign("C11", "plain")] + fuzz_campaigns("C11", tier, ["C11"]), assumptions=ASSUME_GENERIC[:2] + ["glibc snprintf is the reference for the C standard's printf; arguments are passed identically to both through libffi"], dev=dev),
          "C14": two_builds("C14"),
          "C15": two_builds("C15"),
-         "C16": lambda tier, dev: run_cs_property("C16", tier, [Campaign("C16", "plain")], assumptions=ASSUME_GENERIC[:2] + ["comparators are consistent total preorders"], dev=dev),
+         "C16": lambda tier, dev: run_cs_property("C16", tier, [Campaign("C16", "plain")] + fuzz_campaigns("C16", tier, ["C16"]), assumptions=ASSUME_GENERIC[:2] + ["comparators are consistent total preorders"], dev=dev),
          "C20": lambda tier, dev: run_cs_property("C20", tier, [Campaign("C20", "plain")], level="fault_enumeration", assumptions=ASSUME_GENERIC[:2] + ["allocation requests of the statically linked library are intercepted with -Wl,--wrap=malloc,calloc,realloc,free; allocations made inside libc on the library's behalf are not"], dev=dev),
          "C13": lambda tier, dev: run_cs_property("C13", tier, [Campaign("C13", "plain")], assumptions=ASSUME_GENERIC[:2] + ["the harness owns the schedule: real pthreads execute one operation at a time, so the interleaving is the generated sequence", "the default handler is observed through -Wl,--wrap=ignore_handler_s"], dev=dev),
-         "C12": lambda tier, dev: run_cs_property("C12", tier, [Campaign("C12", "shared")], assumptions=["x86-64 Linux/glibc; the harness is linked against libsafec.so built from the working tree (gcc -O1 -fPIC); the writable PT_LOAD segment of the library minus RELRO is its static storage", "state kept inside libc on the library's behalf is libc's reentrancy, not judged", "the handler registration words str_handler/mem_handler are the allowed mutable state"], dev=dev),
+         "C12": lambda tier, dev: run_cs_property("C12", tier, [Campaign("C12", "shared"), Campaign("C12T", "tsan", cases=(3000 if tier == "quick" else 60000))], assumptions=["O-B: the same calls made by two threads on private buffers under ThreadSanitizer (clang -fsanitize=thread build of library and harness); a reported race on an object of the executable is attributed by symbol", "x86-64 Linux/glibc; the harness is linked against libsafec.so built from the working tree (gcc -O1 -fPIC); the writable PT_LOAD segment of the library minus RELRO is its static storage", "state kept inside libc on the library's behalf is libc's reentrancy, not judged", "the handler registration words str_handler/mem_handler are the allowed mutable state"], dev=dev),
          "C05": lambda tier, dev: run_cs_property("C05", tier, [Campaign("C05", "plain")] + foreign_campaigns("C05", tier), assumptions=ASSUME_GENERIC, dev=dev)}
 
 def external(prop, script):
